@@ -141,7 +141,10 @@ def interval_program(rng):
     """plain predicates extending Interval / Impulse, facts and goals, directly and through rules"""
     lines = ["predicate A(real x) : Interval { duration >= 1.0; }",
              "predicate B() : Impulse { }",
-             "predicate C(real y) : Interval { goal a = new A(x: y); a.start >= end; }"]
+             "predicate C(real y) : Interval { goal a = new A(x: y); a.start >= end; }",
+             # temporal predicates declared inside a plain class (not a smart type)
+             "class Robot { predicate Move(real d) : Interval { duration >= d; } predicate Beep() : Impulse { } }",
+             "Robot rb = new Robot();"]
     n = rng.randint(1, 5)
     for i in range(n):
         k = rng.random()
@@ -154,6 +157,14 @@ def interval_program(rng):
             lines.append(f"{kind} b{i} = new B();")
             if rng.random() < 0.5:
                 lines.append(f"b{i}.at >= {num_text(rng.randint(0, 5))};")
-        else:
+        elif k < 0.85:
             lines.append(f"{kind} c{i} = new C(y: {num_text(rng.randint(0, 3))});")
+        elif k < 0.93:
+            lines.append(f"{kind} m{i} = new rb.Move(d: {num_text(rng.randint(0, 3))});")
+            if rng.random() < 0.6:
+                lines.append(f"m{i}.start >= {num_text(rng.randint(0, 12))};")
+        else:
+            lines.append(f"{kind} p{i} = new rb.Beep();")
+            if rng.random() < 0.6:
+                lines.append(f"p{i}.at >= {num_text(rng.randint(0, 12))};")
     return "\n".join(lines) + "\n", {"kind": "interval"}
